@@ -32,21 +32,54 @@ type BoundedResult struct {
 }
 
 func runBounded(repo, prop, tier string) []BoundedResult {
+	// the stand-ins of this property, plus those kept under another property that declare `// govc:also <ids>` naming
+	// this one (a stand-in serves every property anchored in the code it exercises, as contracts do)
+	type standIn struct{ name, file string }
+	var files []standIn
+	own := map[string]bool{}
 	dir := filepath.Join(verifRoot, "bounded", prop)
-	ents, err := os.ReadDir(dir)
-	if err != nil {
+	if ents, err := os.ReadDir(dir); err == nil {
+		for _, e := range ents {
+			if strings.HasSuffix(e.Name(), "_test.go") {
+				files = append(files, standIn{e.Name(), filepath.Join(dir, e.Name())})
+				own[e.Name()] = true
+			}
+		}
+	}
+	if dirs, err := os.ReadDir(filepath.Join(verifRoot, "bounded")); err == nil {
+		for _, d := range dirs {
+			if !d.IsDir() || d.Name() == prop {
+				continue
+			}
+			ents, _ := os.ReadDir(filepath.Join(verifRoot, "bounded", d.Name()))
+			for _, e := range ents {
+				if !strings.HasSuffix(e.Name(), "_test.go") || own[e.Name()] {
+					continue
+				}
+				f := filepath.Join(verifRoot, "bounded", d.Name(), e.Name())
+				data, _ := os.ReadFile(f)
+				if m := regexp.MustCompile(`(?m)^// govc:also (.*)$`).FindStringSubmatch(string(data)); m != nil {
+					for _, id := range strings.Fields(m[1]) {
+						if id == prop {
+							files = append(files, standIn{e.Name(), f})
+							own[e.Name()] = true
+						}
+					}
+				}
+			}
+		}
+	}
+	if len(files) == 0 {
 		return nil
 	}
 	var out []BoundedResult
-	for _, e := range ents {
-		if !strings.HasSuffix(e.Name(), "_test.go") {
-			continue
-		}
-		file := filepath.Join(dir, e.Name())
+	for _, e0 := range files {
+		e := e0
+		file := e.file
 		data, _ := os.ReadFile(file)
 		m := regexp.MustCompile(`(?m)^// govc:pkg (\S+)`).FindStringSubmatch(string(data))
 		b := regexp.MustCompile(`(?m)^// govc:bound (.*)$`).FindStringSubmatch(string(data))
-		res := BoundedResult{Name: strings.TrimSuffix(e.Name(), "_test.go"), File: file}
+		res := BoundedResult{Name: strings.TrimSuffix(e.name, "_test.go"), File: file}
 		if b != nil {
 			res.Bound = b[1]
 		}
@@ -57,9 +90,9 @@ func runBounded(repo, prop, tier string) []BoundedResult {
 		}
 		start := time.Now()
 		pkgDir := filepath.Join(repo, m[1])
-		ov := map[string]map[string]string{"Replace": {filepath.Join(pkgDir, "zz_govc_bounded_"+e.Name()): file}}
+		ov := map[string]map[string]string{"Replace": {filepath.Join(pkgDir, "zz_govc_bounded_"+e.name): file}}
 		ovData, _ := json.Marshal(ov)
-		ovFile := filepath.Join(verifRoot, "out", prop, "bounded_"+e.Name()+".overlay.json")
+		ovFile := filepath.Join(verifRoot, "out", prop, "bounded_"+e.name+".overlay.json")
 		os.MkdirAll(filepath.Dir(ovFile), 0o755)
 		os.WriteFile(ovFile, ovData, 0o644)
 		ctx, cancel := context.WithTimeout(context.Background(), 300*time.Second)
